@@ -149,8 +149,10 @@ type mergeProcessor struct {
 	// docIDs contains all docIDs that have been merged so far by the mergeProcessor
 	docIDs map[string]struct{}
 
-	// composites is a list of composites that need to be merged.
+	// composites is a list of composites that need to be merged, ordered by height.
 	composites *list.List
+	// queuedComposites contains the CIDs of the blocks that are in the composites list.
+	queuedComposites map[cid.Cid]struct{}
 	// missingEncryptionBlocks is a list of blocks that we failed to fetch
 	missingEncryptionBlocks map[cidlink.Link]struct{}
 	// availableEncryptionBlocks is a list of blocks that we have successfully fetched
@@ -175,13 +177,15 @@ func (db *DB) newMergeProcessor(
 		col:                       col,
 		docIDs:                    make(map[string]struct{}),
 		composites:                list.New(),
+		queuedComposites:          make(map[cid.Cid]struct{}),
 		missingEncryptionBlocks:   make(map[cidlink.Link]struct{}),
 		availableEncryptionBlocks: make(map[cidlink.Link]*coreblock.Encryption),
 	}, nil
 }
 
 type mergeTarget struct {
-	heads      map[cid.Cid]*coreblock.Block
+	heads map[cid.Cid]*coreblock.Block
+	// headHeight is the greatest height among the heads.
 	headHeight uint64
 }
 
@@ -189,6 +193,26 @@ func newMergeTarget() mergeTarget {
 	return mergeTarget{
 		heads: make(map[cid.Cid]*coreblock.Block),
 	}
+}
+
+// add adds the given block to the merge target.
+func (mt *mergeTarget) add(blockCid cid.Cid, block *coreblock.Block) {
+	mt.heads[blockCid] = block
+	mt.headHeight = max(mt.headHeight, block.Delta.GetPriority())
+}
+
+// queueComposite adds the given block to the list of composites that need to be merged.
+//
+// The list is kept ordered by height so that a block is always merged after all of its ancestors.
+func (mp *mergeProcessor) queueComposite(blockCid cid.Cid, block *coreblock.Block) {
+	mp.queuedComposites[blockCid] = struct{}{}
+	for e := mp.composites.Front(); e != nil; e = e.Next() {
+		if e.Value.(*coreblock.Block).Delta.GetPriority() >= block.Delta.GetPriority() {
+			mp.composites.InsertBefore(block, e)
+			return
+		}
+	}
+	mp.composites.PushBack(block)
 }
 
 // loadComposites retrieves and stores into the merge processor the composite blocks for the given
@@ -200,6 +224,10 @@ func (mp *mergeProcessor) loadComposites(
 ) error {
 	if _, ok := mt.heads[blockCid]; ok {
 		// We've already processed this block.
+		return nil
+	}
+	if _, ok := mp.queuedComposites[blockCid]; ok {
+		// We've already reached this block through another of its children.
 		return nil
 	}
 
@@ -216,8 +244,10 @@ func (mp *mergeProcessor) loadComposites(
 	// In the simplest case, the new block or its children will link to the current head/heads (merge target)
 	// of the composite DAG. However, the new block and its children might have branched off from an older block.
 	// In this case, we also need to walk back the merge target's DAG until we reach a common block.
+	// The heads of the merge target can have different heights, so only the highest ones are walked back
+	// at each step. A block that is at least as high as all of them and is not one of them is new.
 	if block.Delta.GetPriority() >= mt.headHeight {
-		mp.composites.PushFront(block)
+		mp.queueComposite(blockCid, block)
 		for _, head := range block.Heads {
 			err := mp.loadComposites(ctx, head.Cid, mt)
 			if err != nil {
@@ -226,7 +256,11 @@ func (mp *mergeProcessor) loadComposites(
 		}
 	} else {
 		newMT := newMergeTarget()
-		for _, b := range mt.heads {
+		for c, b := range mt.heads {
+			if b.Delta.GetPriority() < mt.headHeight {
+				newMT.add(c, b)
+				continue
+			}
 			for _, link := range b.Heads {
 				nd, err := mp.blockLS.Load(linking.LinkContext{Ctx: ctx}, link, coreblock.BlockSchemaPrototype)
 				if err != nil {
@@ -238,8 +272,7 @@ func (mp *mergeProcessor) loadComposites(
 					return err
 				}
 
-				newMT.heads[link.Cid] = childBlock
-				newMT.headHeight = childBlock.Delta.GetPriority()
+				newMT.add(link.Cid, childBlock)
 			}
 		}
 		return mp.loadComposites(ctx, blockCid, newMT)
@@ -543,9 +576,7 @@ func getHeadsAsMergeTarget(ctx context.Context, key keys.HeadstoreKey) (mergeTar
 			return mergeTarget{}, err
 		}
 
-		mt.heads[cid] = block
-		// All heads have the same height so overwriting is ok.
-		mt.headHeight = block.Delta.GetPriority()
+		mt.add(cid, block)
 	}
 	return mt, nil
 }
